@@ -664,7 +664,8 @@ Definition rt_execute (r : rt) (iterations : N) : res (rt * event) :=
         | _ :: _ => Ok (set_state r StStopped, Some (EvErrors (ls_dir_errors (r_listing r))))
         | [] => Ok (r, None)
         end
-    | StInkey | StRuntimeError _ => Ok (r, None)
+    | StInkey => Ok (r, Some EvInkey)
+    | StRuntimeError _ => Ok (r, None)
     end in
   do pr <- pre;
   let '(r1, early) := pr in
